@@ -511,3 +511,8 @@ Definition op_row (t : tables) (pre : list Z) (us : bool) : list Z :=
   frame (row_lookup t pre us ++ row_convert t pre).
 
 Definition op_size (t : tables) : list Z := frame [zlen t.(t_entries)].
+
+Definition mk_conv_light (name : string) (cpbox : bool) (preserve : list (list Z)) (boxarg subst : bool)
+  : converter :=
+  {| cv_t := get_light name; cv_cpbox := cpbox; cv_preserve := preserve; cv_boxarg := boxarg;
+     cv_subst := subst |}.
